@@ -574,6 +574,17 @@ def plan(tier, rng, sl, nslices, stats):
             yield {"pattern": render(t), "features": sorted(features(t)), "ast": t, "sseed": 1 + len(render(t))}
     for i in range(cfg["random"]):
         t = gen(rng, rng.choice([0, 1, 1, 2, 2]))
+        if i % 10 == 5:
+            # an escaped metacharacter (a literal bracket, brace, parenthesis ...) directly before a shortcut class or a
+            # set, bare or quantified: scanners that track "inside a set" / "inside a group" by the character alone
+            nxt = ("short", rng.choice(SHORT)) if rng.random() < 0.6 else gen_set(rng)
+            if rng.random() < 0.4:
+                nxt = ("q", nxt, rng.choice(QUANTS[:13]))
+            t = ("cat", ("esc", rng.choice(list("[](){}|"))), nxt)
+            if rng.random() < 0.4:
+                t = ("cat", t, gen(rng, 0))
+            if rng.random() < 0.2:
+                t = ("alt", t, gen(rng, 0))
         p = render(t)
         c = {"pattern": p, "features": sorted(features(t)), "ast": t, "sseed": rng.randrange(1 << 30)}
         yield c
